@@ -387,8 +387,11 @@ def check_history(sch, h, lines):
                     fld = [n for n in range(39) if rb["qrs"][d][n] != eb["qrs"][d][n]]
                     extra = [n for n in fld if eb["qrs"][d][n] is None]
                     bad("C04" if extra else "C01", "%s: record %d differs in generic members %s (got %r, expected %r)" % (where, d, fld, [rb["qrs"][d][n] for n in fld][:3], [eb["qrs"][d][n] for n in fld][:3]))
-            if rb["mms"] != eb["mms"]: bad("C01", "%s: malformed messages differ: %r vs %r" % (where, rb["mms"][:2], eb["mms"][:2]))
-            if rb["aec"] != eb["aec"]: bad("C01", "%s: address event counts differ: %r vs %r" % (where, rb["aec"], eb["aec"]))
+            try: other = eb["bp"][0][2][3]
+            except Exception: other = 3
+            # (an item of a kind the hints in force exclude is a matter of C04, any other difference one of C01)
+            if rb["mms"] != eb["mms"]: bad("C04" if (rb["mms"] and not other & 1) else "C01", "%s: malformed messages differ%s: %r vs %r" % (where, " (the other-data hints in force, %d, exclude malformed messages)" % other if (rb["mms"] and not other & 1) else "", rb["mms"][:2], eb["mms"][:2]))
+            if rb["aec"] != eb["aec"]: bad("C04" if (rb["aec"] and not other & 2) else "C01", "%s: address event counts differ%s: %r vs %r" % (where, " (the other-data hints in force, %d, exclude address events)" % other if (rb["aec"] and not other & 2) else "", rb["aec"], eb["aec"]))
             if rb["stats"] != eb["stats"]: bad("C01", "%s: statistics %r, expected the most recently supplied %r" % (where, rb["stats"], eb["stats"]))
             # C17: earliest <= every stored time; offsets non-negative (unsigned in the file) and exact
             stored = [t for t, st in eb["times"] if st]
